@@ -1339,7 +1339,7 @@ def _norm_fit_tree(tree):
             else:
                 fn = norm.lower_returns(fn)
             fn = norm.swap_negated_ifs(fn)
-            fn = norm.subst_aliases(fn, writes_of_callees(fn) | norm.self_writes(fn))
+            fn = norm.subst_aliases(fn, writes_of_callees(fn))
             fn = norm.resolve_constants(fn, consts)
             cls.body[i] = fn
     return ast.parse(ast.unparse(ast.fix_missing_locations(tree)))
